@@ -64,6 +64,9 @@ type Config struct {
 	// PreHistory: some creators start with a long past (counter near a byte boundary, an old NFT
 	// still held): states that are reachable through built-in calls but too far away to walk to
 	PreHistory bool `json:"pre_history,omitempty"`
+	// LateSchedule: the nodes' factories are constructed with an older schedule and are told the
+	// schedule in force through GasScheduleChange BEFORE their first container is created
+	LateSchedule bool `json:"late_schedule,omitempty"`
 }
 
 // Event is one step of a run; a replay file is a Config plus a list of Events.
